@@ -41,22 +41,37 @@ def TimelockInfo.combineAnd (a b : TimelockInfo) : TimelockInfo := combineThresh
 /-- `TimelockInfo::combine_or` -/
 def TimelockInfo.combineOr (a b : TimelockInfo) : TimelockInfo := combineThreshold 1 [a, b]
 
+/-- the local helper `combine(k, subs)` of `timelock_info`: children without any satisfaction
+(`None`) are dropped; fewer than `k` satisfiable children ⇒ no satisfaction (`None`) -/
+def combineOpt (k : Nat) (subs : List (Option TimelockInfo)) : Option TimelockInfo :=
+  let satisfiable := subs.filterMap id          -- `subs.flatten().collect()`
+  if satisfiable.length < k then none
+  else some (TimelockInfo.combineThreshold k satisfiable)
+
 mutual
-/-- `Policy::timelock_info` (private in the Rust; observable through `check_timelocks`) -/
-def timelockInfo : CPolicy → TimelockInfo
-  | .atom (.after t) => { cltvWithHeight := absIsHeight t, cltvWithTime := absIsTime t }
-  | .atom (.older t) => { csvWithHeight := relIsHeight t, csvWithTime := relIsTime t }
-  | .and subs => TimelockInfo.combineThreshold subs.length (timelockInfoList subs)
-  | .or subs => TimelockInfo.combineThreshold 1 (timelockInfoList subs)
-  | .thresh k subs => TimelockInfo.combineThreshold k (timelockInfoList subs)
-  | _ => {}
-def timelockInfoList : List CPolicy → List TimelockInfo
+/-- `Policy::timelock_info` (private in the Rust; observable through `check_timelocks`):
+`none` = the policy has no satisfaction at all -/
+def timelockInfo : CPolicy → Option TimelockInfo
+  | .unsat => none
+  | .atom (.after t) => some { cltvWithHeight := absIsHeight t, cltvWithTime := absIsTime t }
+  | .atom (.older t) => some { csvWithHeight := relIsHeight t, csvWithTime := relIsTime t }
+  | .and subs => combineOpt subs.length (timelockInfoList subs)
+  | .or subs => combineOpt 1 (timelockInfoList subs)
+  | .thresh k subs => combineOpt k (timelockInfoList subs)
+  | _ => some {}
+def timelockInfoList : List CPolicy → List (Option TimelockInfo)
   | [] => []
   | p :: ps => timelockInfo p :: timelockInfoList ps
 end
 
-/-- `Policy::check_timelocks`: `true` = `Ok(())`, `false` = `Err(HeightTimelockCombination)` -/
-def checkTimelocks (c : CPolicy) : Bool := !(timelockInfo c).containsCombination
+/-- the `match` of `check_timelocks`: only `Some(info) if info.contains_combination` is refused -/
+def TimelockInfo.accepts : Option TimelockInfo → Bool
+  | some info => !info.containsCombination
+  | none => true
+
+/-- `Policy::check_timelocks`: `true` = `Ok(())`, `false` = `Err(HeightTimelockCombination)`;
+no satisfaction at all is `Ok` -/
+def checkTimelocks (c : CPolicy) : Bool := TimelockInfo.accepts (timelockInfo c)
 
 /-- outcome of `Liftable::lift` -/
 inductive LiftRes
@@ -74,28 +89,31 @@ def collectLift : List LiftRes → (List Policy → LiftRes) → LiftRes
   | .errThreshold :: _, _ => .errThreshold
 
 mutual
-/-- `impl Liftable for Concrete` -/
-def lift : CPolicy → LiftRes
+/-- `Concrete::lift_unchecked` (private): the recursive translation; every level ends with
+`.normalized()` -/
+def liftUnchecked : CPolicy → LiftRes
   | .unsat => .ok .unsat
   | .trivial => .ok .trivial
-  | .atom a => .ok (.atom a)          -- leaves: `check_timelocks` cannot fail; `normalized` is the identity
+  | .atom a => .ok (.atom a)          -- `normalized` is the identity on leaves
   | .and subs =>
-    if !checkTimelocks (.and subs) then .err else
-    collectLift (liftList subs) fun ss =>
+    collectLift (liftUncheckedList subs) fun ss =>
       -- `Threshold::new(semantic_subs.len(), semantic_subs).map_err(Error::Threshold)?`: k = n = 0 is refused
       if 1 ≤ ss.length then .ok (Sem.normalized (.thresh ss.length ss)) else .errThreshold
   | .or subs =>
-    if !checkTimelocks (.or subs) then .err else
-    collectLift (liftList subs) fun ss =>
+    collectLift (liftUncheckedList subs) fun ss =>
       -- `Threshold::new(1, semantic_subs).map_err(Error::Threshold)?`: 1 > n = 0 is refused
       if 1 ≤ ss.length then .ok (Sem.normalized (.thresh 1 ss)) else .errThreshold
   | .thresh k subs =>
-    if !checkTimelocks (.thresh k subs) then .err else
-    collectLift (liftList subs) fun ss => .ok (Sem.normalized (.thresh k ss))
-def liftList : List CPolicy → List LiftRes
+    collectLift (liftUncheckedList subs) fun ss => .ok (Sem.normalized (.thresh k ss))
+def liftUncheckedList : List CPolicy → List LiftRes
   | [] => []
-  | p :: ps => lift p :: liftList ps
+  | p :: ps => liftUnchecked p :: liftUncheckedList ps
 end
+
+/-- `impl Liftable for Concrete`: `check_timelocks` once, on the whole policy, then
+`lift_unchecked` -/
+def lift (c : CPolicy) : LiftRes :=
+  if !checkTimelocks c then .err else liftUnchecked c
 
 /-- the `Thresh` arm of `is_safe_nonmalleable` -/
 def safeNonmallThresh (k n : Nat) (rs : List (Bool × Bool)) : Bool × Bool :=
@@ -137,6 +155,16 @@ def andOrNonEmpty : CPolicy → Bool
 where go : List CPolicy → Bool
   | [] => true
   | p :: ps => andOrNonEmpty p && go ps
+
+/-- every `thresh` has `k ≥ 1` (guaranteed by every `Threshold` constructor) -/
+def threshKPos : CPolicy → Bool
+  | .and subs => go subs
+  | .or subs => go subs
+  | .thresh k subs => decide (1 ≤ k) && go subs
+  | _ => true
+where go : List CPolicy → Bool
+  | [] => true
+  | p :: ps => threshKPos p && go ps
 
 /-- what the `Threshold` constructors guarantee, and `or` is not empty (`and` may be) -/
 def WFC : CPolicy → Bool
